@@ -77,6 +77,17 @@ theorem sim7c_step (s : St) (e : Ev) (s' : St) (m : M7c) (hR : Sim7c s m) (hs : 
     intro ob hob
     cases e with
     | probe j c => cases hob; exact probe_ok s s' j c m hR hst
+    | quiesce =>
+      cases hob
+      simp only [step] at hst
+      split at hst
+      · rename_i hq
+        simp only [quiet, Bool.and_eq_true, List.isEmpty_iff] at hq
+        have := hR.o.2.ids
+        rw [hq.1.1] at this
+        have hp : m.o.pending = [] := by simpa using this
+        simp [M7c.probeBad, hp]
+      · simp at hst
     | proceed g i => cases hob
     | bail g i => cases hob
     | closeExit g i => cases hob
